@@ -1015,6 +1015,24 @@ theorem mapkey_parts (hmt : mtype.length = 2) (m : List Bytes) (c' : UInt8) :
     have : (mtype ++ (pack m ++ [c'])).length - 3 = (pack m).length := by simp [hmt]; omega
     rw [this]; simp
 
+theorem go_after {rev : Bytes} {cap f : Nat} {kBody : Bytes} {c c' : UInt8} {m : List Bytes}
+    {vals : List Bytes} {length0 length : Nat} (hmt : mtype.length = 2)
+    (h : s.seekForPrev (kBody ++ [c]) = some (K mtype m [c'], vals))
+    (hne : K mtype m [c'] ≠ kBody ++ [c])
+    (hcp : Loc.commonPrefix rev (pack m) (rev.length + 1) 0 = some length0)
+    (hlen : (if length0 = rev.length then (Loc.lengthWithoutLastLabel rev length0 256 0 0).map (· - 1)
+      else some length0) = some length) :
+    Loc.findMapSorted.go s mtype rev cap (f + 1) kBody c =
+      if length = 0 ∧ kBody.length = 3 then .ok none
+      else if 2 + length + 2 > cap then .panic
+      else Loc.findMapSorted.go s mtype rev cap f (mtype ++ rev.take length ++ [0]) 0x2a := by
+  rw [Loc.findMapSorted.go]
+  simp only [h]
+  obtain ⟨h1, h2⟩ := mapkey_parts hmt m c'
+  rw [if_neg hne, if_neg h1, h2, hcp]
+  simp only []
+  rw [hlen]
+
 theorem go_next {rev : Bytes} {cap f : Nat} {kBody : Bytes} {c c' : UInt8} {m : List Bytes}
     {vals : List Bytes} {length0 length : Nat} (hmt : mtype.length = 2)
     (h : s.seekForPrev (kBody ++ [c]) = some (K mtype m [c'], vals))
@@ -1025,14 +1043,7 @@ theorem go_next {rev : Bytes} {cap f : Nat} {kBody : Bytes} {c c' : UInt8} {m : 
     (h3 : ¬ (length = 0 ∧ kBody.length = 3)) (hcap : ¬ (2 + length + 2 > cap)) :
     Loc.findMapSorted.go s mtype rev cap (f + 1) kBody c =
       Loc.findMapSorted.go s mtype rev cap f (mtype ++ rev.take length ++ [0]) 0x2a := by
-  rw [Loc.findMapSorted.go]
-  simp only [h]
-  obtain ⟨h1, h2⟩ := mapkey_parts hmt m c'
-  rw [if_neg hne, if_neg h1, h2, hcp]
-  simp only []
-  rw [hlen]
-  simp only []
-  rw [if_neg h3, if_neg hcap]
+  rw [go_after hmt h hne hcp hlen, if_neg h3, if_neg hcap]
 
 end GoV2
 
@@ -1127,8 +1138,8 @@ theorem go_wild (hrep : RepMapsV2 s mtype maps) (hmt : mtype.length = 2) {n : Li
         (by rw [List.length_append, hmt, pack_length]; omega)
         (by rw [pack_length]; omega)]
       have e1 : (pack n).take (flat (lcp n m)).length = flat (lcp n m) := by
-        conv => lhs; rw [← ht, pack_append]
-        simp
+        have : pack n = flat (lcp n m) ++ pack t := by rw [← pack_append, ht]
+        rw [this]; simp
       have e2 : mtype ++ flat (lcp n m) ++ [0] = mtype ++ pack (lcp n m) := by
         rw [pack_eq, List.append_assoc]
       rw [e1, e2]
@@ -1144,5 +1155,153 @@ theorem go_wild (hrep : RepMapsV2 s mtype maps) (hmt : mtype.length = 2) {n : Li
       exact cand_prefix hn hp hm ha hle (K_le_of_prefix mtype hpo ha fun _ => bytesLe_refl _) hmax hpres
 
 end MainV2
+
+theorem flat_reverse_length : ∀ (ls : List Bytes), (flat ls.reverse).length = (flat ls).length
+  | [] => rfl
+  | x :: ls => by
+    rw [List.reverse_cons, flat_append, flat_cons, flat_cons, flat_nil, List.append_nil,
+      List.length_append, List.length_append, flat_reverse_length ls]; omega
+
+theorem pack_reverse_length (ls : List Bytes) : (pack ls.reverse).length = (pack ls).length := by
+  rw [pack_length, pack_length, flat_reverse_length]
+
+section FirstV2
+variable {s : Store} {mtype : Bytes} {maps : Maps}
+
+theorem go_first (hrep : RepMapsV2 s mtype maps) (hmt : mtype.length = 2) {n : List Bytes} (hn : NameOK n)
+    (hlen : (pack n).length ≤ 256) :
+    Loc.findMapSorted.go s mtype (pack n) ((pack n).length + 3) ((pack n).length + 2) (mtype ++ pack n) 0x3d =
+      .ok (mapSpec maps n.reverse) := by
+  have hk : mtype ++ pack n ++ [0x3d] = K mtype n [sfx false] := rfl
+  have hfuel : ∀ p : List Bytes, p <+: n → p.length < (pack n).length + 1 := fun p hp => by
+    have h1 := hp.length_le
+    have h2 := length_le_flat_length n
+    rw [pack_length]; omega
+  have hdl : ∀ a : List Bytes, n ≠ [] → a <+: n.dropLast → a <+: n ∧ a ≠ n := fun a hne ha => by
+    refine ⟨ha.trans (List.dropLast_prefix n), fun e => ?_⟩
+    have h1 := ha.length_le
+    have h2 : n.length ≠ 0 := fun h => hne (List.eq_nil_of_length_eq_zero h)
+    rw [e] at h1; simp at h1; omega
+  rw [mapSpec_eq, List.tail_reverse]
+  rcases map_seek_cases hrep hmt (mtype ++ pack n ++ [0x3d]) ⟨pack n ++ [0x3d], by simp⟩ with
+    ⟨hA, habs⟩ | ⟨vals, hB, hmem⟩ | ⟨m, w', vals, hm, hC, hne, hle, hmax⟩
+  · rw [go_stop hA, habs n false hn (by rw [hk]; exact bytesLe_refl _)]
+    simp only []
+    by_cases hnil : n.reverse = []
+    · rw [if_pos hnil]
+    · rw [if_neg hnil]
+      have hne : n ≠ [] := fun e => hnil (by rw [e]; rfl)
+      rw [wild_none]
+      intro a ha
+      obtain ⟨h1, h2⟩ := hdl a hne ha
+      exact habs a true (hn.prefix h1) (by
+        rw [hk]; exact bytesLe_of_lt (K_lt_of_proper_prefix mtype hn h1 h2 _ _))
+  · obtain ⟨z, w, v, hz, _, hv⟩ := hrep.keys _ hmem (by
+      show (mtype ++ pack n ++ [0x3d]).take 2 = mtype
+      rw [List.append_assoc]; exact take_prefix_of_length hmt)
+    simp only at hv
+    subst hv
+    rw [go_hit hB]
+    have h1 := hrep.get_rev hn false
+    obtain ⟨vals', hs', hg'⟩ := seekForPrev_of_mem ⟨_, hmem, rfl⟩
+    rw [hB] at hs'
+    cases hs'
+    rw [← hk, hg'] at h1
+    cases hm : maps n.reverse false with
+    | none => rw [hm] at h1; simp at h1
+    | some v' => rw [hm] at h1; simp at h1; subst h1; rfl
+  · rw [hk] at hC hne hle hmax
+    have hexact : maps n.reverse false = none := by
+      cases hmm : maps n.reverse false with
+      | none => rfl
+      | some v =>
+        exfalso
+        have := hmax n false hn (bytesLe_refl _) (by rw [hmm]; simp)
+        exact hne (bytesLe_antisymm hle this)
+    rw [hexact]
+    simp only []
+    have hcp := commonPrefix_spec n m [] [] ((pack n).length + 1) hn hm rfl
+      (by have := length_le_flat_length n; rw [pack_length]; omega)
+    simp only [List.nil_append, List.length_nil, Nat.zero_add] at hcp
+    by_cases hmn : n = m
+    · subst hmn
+      rw [if_pos rfl] at hcp
+      by_cases hnil : n = []
+      · subst hnil
+        rw [go_after (rev := pack []) (cap := (pack ([] : List Bytes)).length + 3)
+          (f := (pack ([] : List Bytes)).length + 1)
+          (kBody := mtype ++ pack []) (c := 0x3d) hmt hC hne hcp (length := 0) (by decide)]
+        rw [if_pos ⟨rfl, by simp [hmt, pack_nil]⟩]
+        rfl
+      · have hrn : n.reverse ≠ [] := fun e => hnil (by simpa using e)
+        rw [if_neg hrn]
+        have hl := lwl_prefix (c := n) (t := []) hn hnil hlen
+        rw [List.append_nil] at hl
+        have h1flat : 1 ≤ (flat n).length := by
+          have := length_le_flat_length n
+          have h2 : n.length ≠ 0 := fun h => hnil (List.eq_nil_of_length_eq_zero h)
+          omega
+        rw [go_next (rev := pack n) (cap := (pack n).length + 3) (f := (pack n).length + 1)
+          (kBody := mtype ++ pack n) (c := 0x3d) hmt hC hne hcp (length := (flat n.dropLast).length)
+          (by rw [if_pos rfl, hl]; simp [pack_length])
+          (by rw [List.length_append, hmt, pack_length]; omega)
+          (by have := flat_length_le_of_prefix (List.dropLast_prefix n); rw [pack_length]; omega)]
+        have e1 : (pack n).take (flat n.dropLast).length = flat n.dropLast := by
+          have : pack n = flat n.dropLast ++ pack [n.getLast hnil] := by
+            rw [← pack_append, List.dropLast_concat_getLast]
+          rw [this]; simp
+        have e2 : mtype ++ flat n.dropLast ++ [0] = mtype ++ pack n.dropLast := by
+          rw [pack_eq, List.append_assoc]
+        rw [e1, e2]
+        obtain ⟨h1, h2⟩ := hdl n.dropLast hnil (List.prefix_refl _)
+        rw [go_wild hrep hmt hn _ _ h1 h2 (hfuel _ h1)]
+    · have hp'ne : lcp n m ≠ n := by
+        intro e
+        have hnm : n <+: m := e ▸ lcp_prefix_right n m
+        have := K_lt_of_proper_prefix mtype hm hnm hmn [sfx false] [sfx w']
+        rw [bytesLe_iff.1 hle] at this; cases this
+      have hnil : n ≠ [] := by
+        intro e; apply hp'ne; rw [e]; rfl
+      have hrn : n.reverse ≠ [] := fun e => hnil (by simpa using e)
+      rw [if_neg hrn]
+      rw [if_neg hmn] at hcp
+      have hp'n := lcp_prefix_left n m
+      obtain ⟨t, ht⟩ := hp'n
+      have hfl : (flat (lcp n m)).length ≤ (flat n).length := flat_length_le_of_prefix (lcp_prefix_left n m)
+      have h1flat : 1 ≤ (flat n).length := by
+        have := length_le_flat_length n
+        have h2 : n.length ≠ 0 := fun h => hnil (List.eq_nil_of_length_eq_zero h)
+        omega
+      rw [go_next (rev := pack n) (cap := (pack n).length + 3) (f := (pack n).length + 1)
+        (kBody := mtype ++ pack n) (c := 0x3d) hmt hC hne hcp (length := (flat (lcp n m)).length)
+        (by rw [if_neg (by rw [pack_length]; omega)])
+        (by rw [List.length_append, hmt, pack_length]; omega)
+        (by rw [pack_length]; omega)]
+      have e1 : (pack n).take (flat (lcp n m)).length = flat (lcp n m) := by
+        have : pack n = flat (lcp n m) ++ pack t := by rw [← pack_append, ht]
+        rw [this]; simp
+      have e2 : mtype ++ flat (lcp n m) ++ [0] = mtype ++ pack (lcp n m) := by
+        rw [pack_eq, List.append_assoc]
+      rw [e1, e2]
+      rw [go_wild hrep hmt hn _ _ (lcp_prefix_left n m) hp'ne (hfuel _ (lcp_prefix_left n m))]
+      have hp'd : lcp n m <+: n.dropLast := prefix_dropLast_of_proper (lcp_prefix_left n m) hp'ne
+      rw [wild_skip hp'd]
+      intro a ha hpres
+      obtain ⟨h1, h2⟩ := hdl a hnil ha
+      exact cand_prefix hn (List.prefix_refl n) hm h1 hle
+        (bytesLe_of_lt (K_lt_of_proper_prefix mtype hn h1 h2 _ _)) hmax hpres
+
+/-- the two map searches on the declarations -/
+theorem findMapSorted_eq_spec (hrep : RepMapsV2 s mtype maps) (hmt : mtype.length = 2) (ql : List Bytes)
+    (hq : NameOK ql) (hlen : (pack ql).length ≤ 256) :
+    Loc.findMapSorted s (pack ql) mtype = .ok (mapSpec maps ql) := by
+  unfold Loc.findMapSorted
+  rw [reverseWire_pack ql hq]
+  simp only []
+  have := go_first hrep hmt hq.reverse (by rw [pack_reverse_length]; exact hlen)
+  rw [List.reverse_reverse] at this
+  exact this
+
+end FirstV2
 
 end DnsVerif.RevOrder
